@@ -71,7 +71,7 @@ def symbolic_function(
 class Symbol:
     """Base class for things that can be cached in the symbol graph."""
 
-    def __new__(cls, *args, **kwargs):
+    def __new__(cls, /, *args, **kwargs):
         instance = super().__new__(cls)
         update_cache(instance)
         return instance
@@ -85,7 +85,7 @@ class Predicate(Symbol, ABC):
 
     is_expensive: ClassVar[bool] = False
 
-    def __new__(cls, *args, **kwargs):
+    def __new__(cls, /, *args, **kwargs):
         all_kwargs = merge_args_and_kwargs(
             cls.__init__, args, kwargs, ignore_first=True
         )
